@@ -83,6 +83,8 @@ def to_py(t, arrays=False):
   if k == 'list':
     if arrays and kids and all(isinstance(x, int) for x in kids):
       return np.array(kids)
+    if arrays and not kids:
+      return np.zeros((0,), dtype=int)      # an empty array is a leaf like an empty list
     return kids
   if k == 'tuple':
     return tuple(kids)
@@ -185,7 +187,9 @@ def _check_view(chk, data, want_leaves, want_applied, ctx, tag):
     flat_spec = sorted(repr(canon(to_py(sub))) for _, sub in want_leaves)
     flat_got = []
     for _, v in items:
-      if isinstance(v, np.ndarray):
+      if isinstance(v, np.ndarray) and v.size == 0:
+        flat_got.append(repr(canon([])))
+      elif isinstance(v, np.ndarray):
         flat_got += [repr(int(x)) for x in v.tolist()]
       else:
         flat_got.append(repr(canon(v)))
@@ -293,8 +297,32 @@ def _replay(chk, h, arrays, tag=None):
       return
 
 
+def value_kinds(chk):
+  """GetAfterSet for values that are themselves tuple-like: a value is stored as ONE value whatever its type (a named
+  tuple is not a tuple of several outputs), through a bare key, a Key path and a 1-tuple of keys."""
+  import collections
+  from ml_metrics._src.chainables import tree
+  Score = collections.namedtuple('Score', ['value'])
+  Pair = collections.namedtuple('Pair', ['lo', 'hi'])
+  for val in (Score(0.5), Pair(1, 2), (3,), (), tree.Key.new('x', 'y')):
+    for how, key in (('bare key', 'score'), ('key path', tree.Key.new('score')), ('1-tuple of keys', ('score',))):
+      if how == '1-tuple of keys' and type(val) is tuple:      # pylint: disable=unidiomatic-typecheck
+        continue        # a plain tuple with a tuple of keys means several outputs (documented)
+      ctx = dict(kind='treeview-value-kinds', value=repr(val), how=how)
+      try:
+        new = tree.TreeMapView({'a': 1}).copy_and_set(key, val).data
+        back = tree.TreeMapView(new)['score']
+      except Exception as e:  # pylint: disable=broad-exception-caught
+        chk.violation(f'value-kinds:exception:{type(e).__name__}', f'copy_and_set({key!r}, {val!r}) on {{"a": 1}}: {e!r}', ctx)
+        continue
+      chk.replayed()
+      if back != val or type(back) is not type(val):
+        chk.violation('value-kinds:get-after-set', f'copy_and_set({key!r}, {val!r}) then read "score": {back!r}', ctx)
+
+
 def body(chk):
   b = _bounds(chk.tier)
+  value_kinds(chk)
   chk.coverage['bounds'] = b
   for c in b['mc']:
     mc = tlc.run('pipeline', 'TreeView', tlc.cfg_text(constants=c, invariants=LAWS, view='View', deadlock=False),
